@@ -324,6 +324,31 @@ func verifC15Gen(r *verifRng) *verifC15Case {
 			if base == 0 {
 				base = 1000 + r.U64n(100000)
 			}
+			// One deviation class per attempt: most attempts are clean
+			// or deviate in exactly one clause of the settlement rule,
+			// so that each clause is probed in isolation; "chaos"
+			// draws everything independently.
+			dev := "none"
+			switch x := r.Intn(100); {
+			case x < 30:
+			case x < 42:
+				dev = "sum"
+			case x < 53:
+				dev = "total"
+			case x < 62:
+				dev = "mismatch"
+			case x < 73:
+				dev = "addr"
+			case x < 86:
+				dev = "margin"
+			default:
+				dev = "chaos"
+			}
+			need := v.Delta
+			if R > need {
+				need = R
+			}
+			goodMargin := func() int32 { return need + verifC15PickI(r, 0, 0, 1, 10) }
 			pickTotal := func() uint64 {
 				switch x := r.Intn(100); {
 				case x < 50:
@@ -379,29 +404,63 @@ func verifC15Gen(r *verifRng) *verifC15Case {
 				if style == "mpp" || style == "blind" || style == "mixed" {
 					k = 1 + r.Intn(4)
 				}
-				T := pickTotal()
-				S := pickSum(T)
+				if dev == "mismatch" && k == 1 && style != "legacy" && style != "kslegacy" {
+					k = 2
+				}
+				T := base
+				if r.Chance(1, 5) {
+					T = base + r.U64n(base+1)
+				}
+				if dev == "total" || dev == "chaos" {
+					T = pickTotal()
+					if dev == "total" && r.Bool() && base > 1 {
+						T = base - 1
+					}
+				}
+				S := T
+				if r.Chance(1, 4) {
+					S = T + r.U64n(T/4+2)
+				}
+				if dev == "sum" || dev == "chaos" {
+					S = pickSum(T)
+					if dev == "sum" && r.Bool() && T > 1 {
+						S = T - 1
+					}
+				}
 				if S < uint64(k) {
 					S = uint64(k)
 				}
 				var amts []uint64
 				if style == "legacy" || style == "kslegacy" {
-					amts = []uint64{verifC15PickU(r, base, base, base-1, base+1, base+r.U64n(base+1), base/2+1)}
+					switch dev {
+					case "sum", "total", "chaos":
+						amts = []uint64{verifC15PickU(r, base, base-1, base-1, base+1, base+r.U64n(base+1), base/2+1)}
+					default:
+						amts = []uint64{verifC15PickU(r, base, base, base+1, base+r.U64n(base+1))}
+					}
 				} else {
 					amts = verifC15Split(r, S, k)
 				}
 				mism := -1
-				if k > 1 && r.Chance(1, 6) {
+				if k > 1 && (dev == "mismatch" || (dev == "chaos" && r.Chance(1, 6))) {
 					mism = r.Intn(k)
 				}
+				devShard := r.Intn(k)
 				for s := 0; s < k && len(c.Htlcs) < 10; s++ {
 					h := newHtlc(j)
 					h.Hash = v.Hash
 					h.Amt = amts[s]
-					h.Margin = margin(v)
+					switch {
+					case dev == "chaos":
+						h.Margin = margin(v)
+					case dev == "margin" && s == devShard:
+						h.Margin = verifC15PickI(r, need-1, need-1, v.Delta-1, R-1, need-2)
+					default:
+						h.Margin = goodMargin()
+					}
 					h.Total = T
 					if s == mism {
-						h.Total = verifC15PickU(r, T+1, T-1, T+h.Amt, base)
+						h.Total = verifC15PickU(r, T+1, T-1, T+h.Amt, base, S)
 					}
 					switch style {
 					case "legacy":
@@ -428,7 +487,14 @@ func verifC15Gen(r *verifRng) *verifC15Case {
 					}
 					h.AddrKind = "right"
 					a := v.Addr
-					switch x := r.Intn(100); {
+					x := 0
+					switch {
+					case dev == "chaos":
+						x = r.Intn(100)
+					case dev == "addr" && s == devShard:
+						x = 82 + r.Intn(18)
+					}
+					switch {
 					case x < 82:
 					case x < 93:
 						h.AddrKind = "wrong"
@@ -472,12 +538,31 @@ func verifC15Gen(r *verifRng) *verifC15Case {
 				}
 			case "amp", "ampspont":
 				k := 1 + r.Intn(3)
-				T := pickTotal()
-				S := pickSum(T)
+				if dev == "mismatch" && k == 1 {
+					k = 2
+				}
+				T := base
+				if r.Chance(1, 5) {
+					T = base + r.U64n(base+1)
+				}
+				if dev == "total" || dev == "chaos" {
+					T = pickTotal()
+				}
+				S := T
+				if r.Chance(1, 4) {
+					S = T + r.U64n(T/4+2)
+				}
+				if dev == "sum" || dev == "chaos" {
+					S = pickSum(T)
+					if dev == "sum" && r.Bool() && T > 1 {
+						S = T - 1
+					}
+				}
 				if S < uint64(k) {
 					S = uint64(k)
 				}
 				amts := verifC15Split(r, S, k)
+				devShard := r.Intn(k)
 				root := verifC15Rand32(r)
 				setID := verifC15Rand32(r)
 				if r.Chance(1, 40) {
@@ -493,11 +578,11 @@ func verifC15Gen(r *verifRng) *verifC15Case {
 				}
 				shares[k-1] = acc
 				bad := -1
-				if r.Chance(1, 6) {
+				if dev == "chaos" && r.Chance(1, 3) {
 					bad = r.Intn(k)
 				}
 				mism := -1
-				if k > 1 && r.Chance(1, 6) {
+				if k > 1 && (dev == "mismatch" || (dev == "chaos" && r.Chance(1, 6))) {
 					mism = r.Intn(k)
 				}
 				for s := 0; s < k && len(c.Htlcs) < 10; s++ {
@@ -508,7 +593,14 @@ func verifC15Gen(r *verifRng) *verifC15Case {
 					if s == mism {
 						h.Total = verifC15PickU(r, T+1, T-1, base)
 					}
-					h.Margin = margin(v)
+					switch {
+					case dev == "chaos":
+						h.Margin = margin(v)
+					case dev == "margin" && s == devShard:
+						h.Margin = verifC15PickI(r, need-1, need-1, v.Delta-1, R-1, need-2)
+					default:
+						h.Margin = goodMargin()
+					}
 					h.SetID = setID
 					h.Share = shares[s]
 					h.Child = uint32(s)
@@ -525,14 +617,14 @@ func verifC15Gen(r *verifRng) *verifC15Case {
 					}
 					h.AddrKind = "right"
 					h.Addr = v.Addr
-					if r.Chance(1, 10) {
+					if (dev == "addr" && s == devShard) || (dev == "chaos" && r.Chance(1, 8)) {
 						h.AddrKind = "wrong"
 						h.Addr = otherAddr(j)
 					}
-					if r.Chance(1, 20) {
+					if dev == "chaos" && r.Chance(1, 8) {
 						h.Style = "ampnompp"
 					}
-					if r.Chance(1, 25) {
+					if dev == "chaos" && r.Chance(1, 10) {
 						// plain MPP htlc towards an AMP invoice
 						h.Style = "mpp"
 						h.Hash = v.Hash
@@ -608,14 +700,14 @@ func verifC15Gen(r *verifRng) *verifC15Case {
 			insert(verifC15Ev{Op: "replay", Htlc: h.ID, Inv: h.Inv}, first)
 		}
 	}
-	for n := r.Intn(4); n > 0; n-- {
-		insert(verifC15Ev{Op: "clock", DurMs: int64(verifC15PickU(r, 1000, 15000, 29000, 30000, 31000, 31000, 61000))}, 0)
+	for n := r.Intn(3); n > 0; n-- {
+		insert(verifC15Ev{Op: "clock", DurMs: int64(verifC15PickU(r, 1000, 1000, 15000, 29000, 30000, 31000, 61000))}, 0)
 	}
 	for n := r.Intn(4); n > 0; n-- {
 		insert(verifC15Ev{Op: "height", DH: verifC15PickI(r, 1, 1, 2, 5, -1, 9, 40)}, 0)
 	}
 	for j, v := range c.Invs {
-		if r.Chance(1, 3) {
+		if r.Chance(1, 5) {
 			insert(verifC15Ev{Op: "cancel", Inv: j}, 0)
 		}
 		if v.Kind == "hold" || (v.Kind == "ks" && c.Cfg.KeysendHoldMs != 0) {
@@ -724,6 +816,8 @@ type verifC15Rt struct {
 	acceptSeen   bool
 	acceptHeight int32
 	term         string // "", "S", "F" after acceptance
+	termAt       int64
+	termClass    string // "/replay-precheck:<outcome>" when the fail is of the KF-C15-1 class
 	batchPending bool
 	notified     int
 	key          invpkg.CircuitKey
@@ -757,6 +851,7 @@ type verifC15Ref struct {
 	hash   verifC15H
 	addr   verifC15H
 	inv    *verifC15Inv // nil for implied invoices
+	invIdx int
 }
 
 type verifC15Run struct {
@@ -771,6 +866,7 @@ type verifC15Run struct {
 	notifier *verifC15Notifier
 	hodl     chan interface{}
 
+	tick     atomic.Int64
 	mu       sync.Mutex
 	height   int32
 	now      time.Time
@@ -809,6 +905,12 @@ func (r *verifC15Run) tr(format string, a ...any) {
 }
 
 func (r *verifC15Run) ref(id string) *verifC15Ref { return r.refByID[id] }
+
+func (r *verifC15Run) isAdded(j int) bool {
+	r.mu.Lock()
+	defer r.mu.Unlock()
+	return r.added[j]
+}
 
 func (r *verifC15Run) addRef(ref *verifC15Ref) *verifC15Ref {
 	if x, ok := r.refByID[ref.id]; ok {
@@ -858,9 +960,16 @@ func verifC15Kind(res invpkg.HtlcResolution, err error) (string, string) {
 
 // observe feeds one verdict about htlc id into the per-htlc automaton.
 // Caller holds r.mu.
-func (r *verifC15Run) observe(id int, kind, src, detail string, res invpkg.HtlcResolution, height int32, isReplay bool) {
+func (r *verifC15Run) observe(id int, kind, src, detail string, res invpkg.HtlcResolution, height int32, isReplay bool, start int64) {
 	h := r.in.Htlcs[id]
 	rt := r.rt[id]
+	// Logical time: a verdict can only be held against an earlier one if
+	// the call that produced it STARTED after the earlier one was observed
+	// (concurrent notifications may be linearised either way).
+	at := r.tick.Add(1)
+	if start == 0 {
+		start = at
+	}
 	rt.obs = append(rt.obs, verifC15Obs{Kind: kind, Src: src, Ev: r.ev, Detail: detail})
 	r.tr("h%d:%s:%s:%s", id, src, kind, detail)
 
@@ -877,10 +986,26 @@ func (r *verifC15Run) observe(id int, kind, src, detail string, res invpkg.HtlcR
 	if isReplay && rt.acceptSeen && src == "direct" {
 		r.vc.Count("oracle_replay_evals", 1)
 	}
+	// Fingerprint class of known finding KF-C15-1/2 and nothing else: a
+	// direct fail with ResultKeySendError / ResultAmpError for a replay of
+	// an htlc that was recorded (accepted or settled) before, at a height
+	// where expiry < height + FinalCltvRejectDelta (the spontaneous-payment
+	// pre-check that runs before replay detection).
+	precheck := ""
+	if kind == "F" && src == "direct" && isReplay && rt.acceptSeen &&
+		(detail == "invalid_keysend_parameters" || detail == "invalid_amp_parameters") &&
+		int64(rt.expiry) < int64(height)+int64(r.in.Cfg.RejectDelta) && height > rt.acceptHeight {
+
+		precheck = "/replay-precheck:" + detail
+	}
 	switch kind {
 	case "A":
-		if rt.term != "" {
-			r.violation("replay_same_verdict", "accept-after-"+rt.term+"/"+h.Style,
+		if rt.term != "" && rt.term != "?" && rt.termAt >= start {
+			r.vc.Count("overlapping_accept_after_resolution", 1)
+			return
+		}
+		if rt.term != "" && rt.term != "?" {
+			r.violation("replay_same_verdict", "accept-after-"+rt.term+"/"+h.Style+rt.termClass,
 				fmt.Sprintf("htlc %d was already resolved %s, but a later notification of the same circuit key was accepted again (obs=%v)", id, rt.term, rt.obs))
 			return
 		}
@@ -891,8 +1016,10 @@ func (r *verifC15Run) observe(id int, kind, src, detail string, res invpkg.HtlcR
 	case "S":
 		switch {
 		case rt.term == "F":
-			r.violation("no_settle_and_cancel", "settle-after-fail/"+h.Style,
-				fmt.Sprintf("htlc %d was canceled after acceptance and is now settled (obs=%v)", id, rt.obs))
+			r.violation("no_settle_and_cancel", "settle-after-fail/"+h.Style+rt.termClass,
+				fmt.Sprintf("htlc %d was failed after acceptance and is now settled (obs=%v)", id, rt.obs))
+			// still judge the settlement itself
+			rt.batchPending = true
 		case rt.term == "S":
 			// replay / duplicate delivery of the same verdict
 		default:
@@ -903,6 +1030,7 @@ func (r *verifC15Run) observe(id int, kind, src, detail string, res invpkg.HtlcR
 				r.vc.Diag("replay_settled_without_hodl_delivery", fmt.Sprintf("store=%s htlc=%d", r.store, id))
 			}
 			rt.term = "S"
+			rt.termAt = at
 			rt.batchPending = true
 		}
 	case "F":
@@ -913,13 +1041,15 @@ func (r *verifC15Run) observe(id int, kind, src, detail string, res invpkg.HtlcR
 				r.vc.Count("replay_of_unrecorded", 1)
 			}
 		case rt.term == "S":
-			r.violation("no_settle_and_cancel", "fail-after-settle/"+h.Style,
+			r.violation("no_settle_and_cancel", "fail-after-settle/"+h.Style+precheck,
 				fmt.Sprintf("htlc %d was settled and is now failed (obs=%v)", id, rt.obs))
 		case rt.term == "":
 			if src == "direct" && !r.conc {
 				r.vc.Diag("replay_failed_without_hodl_delivery", fmt.Sprintf("store=%s htlc=%d %s", r.store, id, detail))
 			}
 			rt.term = "F"
+			rt.termAt = at
+			rt.termClass = precheck
 		}
 	case "E":
 		r.vc.Diag("notify_error", fmt.Sprintf("store=%s htlc=%d style=%s: %s", r.store, id, h.Style, detail))
@@ -950,7 +1080,7 @@ func (r *verifC15Run) drain() int {
 			if detail == "mpp_timeout" {
 				r.flags["mpptimeout"] = true
 			}
-			r.observe(id, kind, "hodl", detail, res, 0, false)
+			r.observe(id, kind, "hodl", detail, res, 0, false, 0)
 			r.mu.Unlock()
 		default:
 			return n
@@ -968,6 +1098,14 @@ func (r *verifC15Run) lookup(ref *verifC15Ref) *verifC15Snap {
 		inv, err = r.reg.LookupInvoiceByRef(ctx, invpkg.InvoiceRefByAddr(ref.addr))
 	} else {
 		inv, err = r.reg.LookupInvoice(ctx, lntypes.Hash(ref.hash))
+		// A universe invoice that was not added (yet) may exist as a
+		// spontaneous AMP invoice under its payment address.
+		if err != nil && ref.addr != (verifC15H{}) && ref.inv != nil && !r.isAdded(ref.invIdx) {
+			inv2, err2 := r.reg.LookupInvoiceByRef(ctx, invpkg.InvoiceRefByAddr(ref.addr))
+			if err2 == nil {
+				inv, err = inv2, nil
+			}
+		}
 	}
 	s := &verifC15Snap{}
 	if err != nil {
@@ -1065,7 +1203,7 @@ func (r *verifC15Run) checkSnap(ref *verifC15Ref, s *verifC15Snap) {
 		if hs.State == invpkg.HtlcStateSettled {
 			settledSum += r.in.Htlcs[id].Amt
 			if rt.term == "F" {
-				r.violation("no_settle_and_cancel", "db-settled+fail-resolution",
+				r.violation("no_settle_and_cancel", "db-settled+fail-resolution"+rt.termClass,
 					fmt.Sprintf("htlc %d is settled in the invoice record but a fail resolution was delivered for it after acceptance (obs=%v)", id, rt.obs))
 			}
 		}
@@ -1223,7 +1361,7 @@ func (r *verifC15Run) terms(ref *verifC15Ref) verifC15Terms {
 	if ref == nil {
 		return verifC15Terms{}
 	}
-	if ref.inv != nil && ref.inv.Added {
+	if ref.inv != nil && ref.inv.Added && r.added[ref.invIdx] {
 		return verifC15Terms{value: ref.inv.Value, delta: ref.inv.Delta,
 			reqAddr: ref.inv.requiresAddr(), addr: ref.inv.Addr, known: true,
 			describe: ref.id}
@@ -1284,6 +1422,16 @@ func (r *verifC15Run) checkBatches() {
 		g := groups[gk]
 		r.vc.Count("oracle_settle_rule_evals", 1)
 		r.flags["settled"] = true
+		{
+			st := r.in.Htlcs[g.ids[0]].Style
+			if len(g.ids) > 1 {
+				st += "_multi"
+			}
+			if g.ref != nil && g.ref.inv != nil && g.ref.inv.Kind == "hold" {
+				st += "_hold"
+			}
+			r.vc.Count("settled_sets_"+st, 1)
+		}
 		desc := func() string {
 			var parts []string
 			for _, id := range g.ids {
@@ -1412,7 +1560,7 @@ func verifC15NewRun(t *testing.T, vc *verifCtx, in *verifC15Case, store string, 
 		r.keyToID[k] = h.ID
 	}
 	for j, v := range in.Invs {
-		ref := &verifC15Ref{id: fmt.Sprintf("inv%d", j), hash: v.Hash, addr: v.Addr, inv: v}
+		ref := &verifC15Ref{id: fmt.Sprintf("inv%d", j), hash: v.Hash, addr: v.Addr, inv: v, invIdx: j}
 		if v.Kind == "ampspont" {
 			ref.byAddr = true
 		}
@@ -1508,6 +1656,7 @@ func (r *verifC15Run) doNotify(id int, isReplay bool) {
 		b, _ := hex.DecodeString(h.KsRecord)
 		p.custom = record.CustomSet{record.KeySendType: b}
 	}
+	start := r.tick.Add(1)
 	res, err := r.reg.NotifyExitHopHtlc(lntypes.Hash(h.Hash), lnwire.MilliSatoshi(h.Amt),
 		rt.expiry, height, rt.key, r.hodl, nil, p)
 	kind, detail := verifC15Kind(res, err)
@@ -1516,7 +1665,7 @@ func (r *verifC15Run) doNotify(id int, isReplay bool) {
 	if isReplay {
 		r.flags["replay"] = true
 	}
-	r.observe(id, kind, "direct", detail, res, height, isReplay)
+	r.observe(id, kind, "direct", detail, res, height, isReplay, start)
 	r.mu.Unlock()
 }
 
